@@ -153,7 +153,7 @@ def tlc(module, cfg=None, workers=1, env=None, timeout=1800, xmx="8g", extra=(),
     os.makedirs(meta, exist_ok=True)
     os.makedirs(tmpd, exist_ok=True)
     cfgp = os.path.join(SPEC, "cfg", (cfg or module) + ".cfg")
-    jopts = ["-XX:+UseParallelGC", "-Xmx" + xmx, "-Djava.io.tmpdir=" + tmpd]
+    jopts = ["-XX:+UseParallelGC", "-Xss64m", "-Xmx" + xmx, "-Djava.io.tmpdir=" + tmpd]
     if deque:
         jopts.append("-Dtlc2.tool.queue.IStateQueue=StateDeque")
     cmd = ["java"] + jopts + ["-cp", JAR, "tlc2.TLC", "-workers", str(workers), "-metadir", meta,
@@ -204,6 +204,10 @@ def parse_tlc(out):
                  r"Error: .*(evaluat|overflow|attempted|undefined))", out) and not res["violated"]:
         m2 = re.search(r"Error:.*(?:\n.*){0,12}", out)
         res["error"] = m2.group(0) if m2 else "TLC error"
+    if res["error"] is None and not res["violated"]:
+        m3 = re.search(r"^Error: (?!Invariant|Action property|Temporal)(.*(?:\n.*){0,10})", out, re.M)
+        if m3 and "Postcondition" not in m3.group(0):
+            res["error"] = m3.group(0)
     if "Parsing or semantic analysis failed" in out:
         res["error"] = out[-2500:]
     # -coverage 1: "<Action line …>: taken:generated"
